@@ -434,6 +434,10 @@ pub fn run_check(check: &dyn Check, tier: Tier) -> i32 {
     if std::env::var("VERIF_DEBUG").is_ok() {
         eprintln!("items computed in {:.2}s: {}", t0.elapsed().as_secs_f64(), n);
     }
+    if let Ok(f) = std::env::var("VERIF_ONLY") {
+        // debugging aid (never set by the registered commands): only the scenarios whose id contains the text
+        items.retain(|i| i["scenario"].as_str().unwrap_or_else(|| i["id"].as_str().unwrap_or("")).contains(&f));
+    }
     let scenario_ids: BTreeSet<String> = items
         .iter()
         .map(|i| i["scenario"].as_str().unwrap_or_else(|| i["id"].as_str().unwrap_or("")).to_string())
